@@ -20,7 +20,17 @@ def ev_channel_receive : List String :=
 def ev_channel_ReceiveAsync : List String :=
   ["call s.recvQueue.Read()", "if !ok || !st.OK()", "return nil, ok, st", "call s.recvBytes.Add(size)", "if recv < s.initWindow/2", "return data, true, status.OK", "call s.recvBytes.Add(-recv)", "if !s.closed.Load()", "call s.closed.Load()", "call s.sender.sendWindow(ctx, recv)", "switch st.Code", "case status.CodeOK, status.CodeCancelled, status.CodeClosed, status.CodeEnd", "default", "return nil, false, st", "return data, true, status.OK"]
 def ev_channel_Receive : List String :=
-  ["for", "call ch.ReceiveAsync(ctx)", "switch", "case !st.OK()", "return nil, st", "case ok", "return data, status.OK", "select-case <-ctx.Wait()", "return nil, ctx.Status()", "select-case <-ch.ReceiveWait()"]
+  ["for", "call ch.ReceiveWait()", "call ch.ReceiveAsync(ctx)", "switch", "case !st.OK()", "return nil, st", "case ok", "return data, status.OK", "select-case <-ctx.Wait()", "return nil, ctx.Status()", "select-case <-wait"]
+def ev_channel_ReceiveWait : List String :=
+  ["call ch.acquire()", "call ch.release()", "return s.recvQueue.ReadWait()", "call s.recvQueue.ReadWait()"]
+def ev_conn_sendLoop : List String :=
+  ["for", "call c.writeq.ReadWait()", "for", "call c.writeq.Read()", "if !st.OK()", "return st", "if !ok", "if !st.OK()", "call c.sendMessage(b)", "return st", "if !st.OK()", "call c.writer.flush()", "return st", "select-case <-ctx.Wait()", "return ctx.Status()", "select-case <-wait"]
+def ev_rpc_client_Receive : List String :=
+  ["for", "call ch.ReceiveWait()", "call ch.ReceiveAsync(ctx)", "switch", "case !st.OK()", "return nil, st", "case ok", "return msg, status.OK", "select-case <-ctx.Wait()", "return nil, ctx.Status()", "select-case <-wait"]
+def ev_rpc_server_Receive : List String :=
+  ["for", "call ch.ReceiveWait()", "call ch.ReceiveAsync(ctx)", "switch", "case !st.OK()", "return nil, st", "case ok", "return msg, status.OK", "select-case <-ctx.Wait()", "return nil, ctx.Status()", "select-case <-wait"]
+def ev_client_new : List String :=
+  ["if mode == ClientMode_AutoConnect", "call c.mu.Lock()", "call c.connect()", "call c.mu.Unlock()", "return c"]
 def ev_channel_Send : List String :=
   ["call s.sendMu.Lock()", "call s.sendMu.Unlock()", "if s.closed.Load()", "call s.closed.Load()", "return statusChannelClosed", "if s.opened.Load()", "call s.opened.Load()", "if !st.OK()", "call s.decrementSendWindow(ctx, data)", "return st", "return s.sender.sendData(ctx, data)", "call s.sender.sendData(ctx, data)", "call s.open()", "call s.sendWindow.Add(-size)", "return s.sender.sendOpen(ctx, data)", "call s.sender.sendOpen(ctx, data)"]
 def ev_channel_SendAndClose : List String :=
@@ -66,13 +76,13 @@ def ev_client_Close : List String :=
 def ev_client_conn : List String :=
   ["if c.closed_.IsSet()", "call c.closed_.IsSet()", "return nil, nil, status.Closedf(\"mpx client closed\")", "call c.conns.Load().roundRobin()", "call c.conns.Load()", "if ok", "return conn, nil, status.OK", "call c.mu.Lock()", "call c.mu.Unlock()", "if c.closed_.IsSet()", "call c.closed_.IsSet()", "return nil, nil, status.Closedf(\"mpx client closed\")", "call c.conns.Load().roundRobin()", "call c.conns.Load()", "if ok", "return conn, nil, status.OK", "if c.connected_.IsSet()", "call c.connected_.IsSet()", "call c.connected_.Unset()", "call c.disconnected_.Set()", "call c.connect()", "if !st.OK()", "return nil, nil, st", "return nil, future, status.OK"]
 def ev_client_onConnClosed : List String :=
-  ["call c.mu.Lock()", "call c.mu.Unlock()", "call c.conns.Load().remove(conn)", "call c.conns.Load()", "call c.conns.Store(conns)", "if conns.len() > 0", "call conns.len()", "return ", "if c.connected_.IsSet()", "call c.connected_.IsSet()", "call c.connected_.Unset()", "call c.disconnected_.Set()", "if c.mode == ClientMode_AutoConnect", "call c.connect()"]
+  ["call c.mu.Lock()", "call c.mu.Unlock()", "call c.conns.Load().remove(conn)", "call c.conns.Load()", "call c.conns.Store(conns)", "if conns.len() > 0", "call conns.len()", "return ", "if c.closed_.IsSet()", "return ", "if c.connected_.IsSet()", "call c.connected_.IsSet()", "call c.connected_.Unset()", "call c.disconnected_.Set()", "if c.mode == ClientMode_AutoConnect", "call c.connect()"]
 def ev_client_onConnChannelsReached : List String :=
-  ["call c.mu.Lock()", "call c.mu.Unlock()", "if max <= 0", "return ", "call c.conns.Load().len()", "call c.conns.Load()", "if num < max", "call c.connect()"]
+  ["call c.mu.Lock()", "call c.mu.Unlock()", "if max <= 0", "return ", "if c.closed_.IsSet()", "return ", "call c.conns.Load().len()", "call c.conns.Load()", "if num < max", "call c.connect()"]
 def ev_client_connect : List String :=
   ["call c.connecting.Unwrap()", "if ok", "return routine, status.OK", "call async.Run(c.connect1)", "call c.connecting.Set(routine)", "return routine, status.OK"]
 def ev_client_connect1 : List String :=
-  ["call c.connectRecover(ctx)", "call c.mu.Lock()", "call c.mu.Unlock()", "call c.connecting.Clear()", "if st.OK()", "return conn, st", "select-case <-ctx.Wait()", "return nil, ctx.Status()", "select-case <-c.closed_.Wait()", "call c.closed_.Wait()", "return nil, status.Closedf(\"mpx client closed\")", "select-default", "if c.mode != ClientMode_AutoConnect", "return nil, st", "call async.Run(c.connect1)", "call c.connecting.Set(routine)", "return nil, st"]
+  ["call c.connectRecover(ctx)", "call c.mu.Lock()", "call c.mu.Unlock()", "call c.connecting.Clear()", "if st.OK()", "return conn, st", "if c.closed_.IsSet()", "call c.closed_.IsSet()", "return nil, status.Closedf(\"mpx client closed\")", "select-case <-ctx.Wait()", "return nil, ctx.Status()", "select-default", "if c.mode != ClientMode_AutoConnect", "return nil, st", "call async.Run(c.connect1)", "call c.connecting.Set(routine)", "return nil, st"]
 def ev_client_connectRecover : List String :=
   ["func-literal", "if e != nil", "call func() int { c.mu.Lock() defer c.mu.Unlock() c.connectAttempt++ return c.connectAttempt }()", "func-literal", "call c.mu.Lock()", "call c.mu.Unlock()", "return c.connectAttempt", "if attempt > 1", "call reconnectTimeout(attempt)", "select-case <-ctx.Wait()", "return nil, ctx.Status()", "select-case <-time.After(timeout)", "call c.connector.connect(ctx, c.addr)", "if !st.OK()", "return nil, st", "call c.handle(conn)", "call c.mu.Lock()", "call c.mu.Unlock()", "if c.closed_.IsSet()", "call c.closed_.IsSet()", "call conn.Close()", "return nil, status.Closedf(\"mpx client closed\")", "call status.Closedf(\"mpx client closed\")", "call c.conns.Load().add(conn)", "call c.conns.Load()", "call c.conns.Store(conns)", "call c.connected_.Set()", "call c.disconnected_.Unset()", "return conn, status.OK"]
 def ev_reconnectTimeout : List String :=
